@@ -339,7 +339,7 @@ var ctrNames = []string{"histories", "publishes", "targets", "results_updated", 
 	"targets_existing_record", "targets_missing_name", "targets_unknown_zone", "targets_wrong_zone", "targets_non_https_name",
 	"targets_duplicate_in_call", "duplicate_of_updated_record", "targets_on_later_pages", "later_page_targets_found",
 	"faults_planned", "faults_hit_zone_lookup", "faults_hit_list_page1", "faults_hit_list_later_page", "faults_hit_patch",
-	"patches_applied", "list_requests_page1", "list_requests_later_page", "external_changes",
+	"patches_applied", "list_requests_page1", "list_requests_later_page", "external_changes", "histories_with_late_zone", "targets_in_zone_not_there_yet", "targets_in_zone_that_appeared",
 	"target_ech_absent", "target_ech_quoted", "target_ech_unquoted", "target_ech_twice", "target_ech_bare",
 	"target_value_quoted_space", "target_value_quoted_space_ech_lookalike", "target_value_empty", "target_value_double_space",
 	"nochange_when_current", "updated_validated", "lenient_after_zone_failure", "lenient_ech_twice", "zones_3_pages", "zones_2_pages", "zones_1_page", "histories_with_sparse_json"}
@@ -462,6 +462,23 @@ func runHistory(r *mon.Run, vc *vcoll, ctr *counters, i int, rng *mrand.Rand) {
 	pub.VerifSetBaseURL(srv.BaseURL())
 
 	nPub := 1 + rng.IntN(6)
+	// every fifth history: one zone is not there (not yet visible to the
+	// token) during the first publishes and appears between two of them; its
+	// records do not exist before and exist afterwards
+	var late *cfapi.Zone
+	lateAt := 0
+	if i%5 == 4 && len(model) > 1 {
+		if nPub < 2 {
+			nPub = 2
+		}
+		zi := rng.IntN(len(model))
+		late = &cfapi.Zone{}
+		*late = model[zi]
+		model = append(model[:zi:zi], model[zi+1:]...)
+		srv.SetZones(model)
+		lateAt = 1 + rng.IntN(nPub-1)
+		ctr.add("histories_with_late_zone", 1)
+	}
 	cur := 0
 	for k := 0; k < nPub; k++ {
 		if k > 0 && rng.IntN(3) > 0 {
@@ -487,9 +504,29 @@ func runHistory(r *mon.Run, vc *vcoll, ctr *counters, i int, rng *mrand.Rand) {
 			}
 		}
 
+		lateNow := false
+		if late != nil && k == lateAt {
+			srv.AddZone(*late)
+			model = srv.Snapshot()
+			st.External += fmt.Sprintf("zone %s appears with %d records", late.Name, len(late.Records))
+			lateNow = true
+		}
+
 		// targets
 		nt := 1 + rng.IntN(8)
 		var targets []publish.Target
+		if late != nil {
+			// asked for while absent (not found), and again from the
+			// publish at which it is there
+			if hr := httpsRecords(late); len(hr) > 0 && (k < lateAt || lateNow || rng.IntN(2) == 0) {
+				targets = append(targets, publish.Target{Zone: late.Name, Name: hr[rng.IntN(len(hr))].Name})
+				if k < lateAt {
+					ctr.add("targets_in_zone_not_there_yet", 1)
+				} else {
+					ctr.add("targets_in_zone_that_appeared", 1)
+				}
+			}
+		}
 		pickExisting := func(later bool) (publish.Target, bool) {
 			for try := 0; try < 6; try++ {
 				z := &model[rng.IntN(len(model))]
